@@ -119,3 +119,27 @@ Fixpoint check_positions (repaired : bool) (L : Z) (ps : list fl) : bool :=     
    before the entry point is reached.  [checked] is re-read from _tskitmodule.c. *)
 Definition with_id_parse {A} (checked : bool) (xs : list Z) (r : res A) : res A :=
   if checked && negb (forallb fits_int32 xs) then Err E_VALUE else r.
+
+(* ------------------------------------------------------------------------------------ *)
+(* tables.c tsk_table_collection_check_index_integrity (l.11106-11130): both user-suppliable
+   index arrays are range-checked element by element; tsk_table_collection_check_tree_integrity
+   and the tree-building code then read edge columns (num_edges elements) at I[j] and O[k].
+   [ins_checked] / [rem_checked] = whether that array is tested ([rem_checked = false] is the
+   seeded change C09-3, where the merged condition tests the insertion order twice). *)
+Fixpoint check_index_loop (ins_checked rem_checked : bool) (ne : Z) (ins rem : list Z) (j : Z) (n : nat)
+  : res unit :=
+  match n with
+  | O => Ok tt
+  | S n' =>
+      do i <- get ins j;
+      do o <- get rem j;
+      if ins_checked && ((i <? 0) || (i >=? ne)) then Err E_LIBRARY else
+      if rem_checked && ((o <? 0) || (o >=? ne)) then Err E_LIBRARY else
+      check_index_loop ins_checked rem_checked ne ins rem (j + 1) n'
+  end.
+
+Definition check_index_entry (ins_checked rem_checked : bool) (ne : Z) (ins rem edge_col : list Z) : res unit :=
+  if negb ((zlen ins =? ne) && (zlen rem =? ne)) then Err E_LIBRARY (* TSK_ERR_TABLES_NOT_INDEXED *) else
+  do _ <- check_index_loop ins_checked rem_checked ne ins rem 0 (Z.to_nat ne);
+  do _ <- read_all edge_col ins;
+  read_all edge_col rem.
